@@ -61,7 +61,8 @@ RetAccept(h) == LET L == pend[h].a IN
     ELSE IF queue[L] # <<>>
          THEN LET c == Head(queue[L]) IN
               /\ Ev.ok = 1 /\ (LIFE => Ev.cloexec = 1) /\ (IO => Ev.from = c) /\ BlockingWait(sk[L])
-              /\ sk' = [sk EXCEPT ![h] = [NoSock EXCEPT !.ex = TRUE, !.conn = TRUE, !.peer = c, !.backlog = Ev.g[6]], ![c].peer = h]
+              (* (keep-alive of the new socket is what the OS gave its descriptor - Linux hands the listener's option on; the getters, checked below, must say the same) *)
+              /\ sk' = [sk EXCEPT ![h] = [NoSock EXCEPT !.ex = TRUE, !.conn = TRUE, !.peer = c, !.backlog = Ev.g[6], !.keepalive = (HasField(Ev, "kka") /\ Ev.kka = 1)], ![c].peer = h]
               /\ queue' = [queue EXCEPT ![L] = Tail(@), ![h] = <<>>]
               /\ sent' = [sent EXCEPT ![h] = 0] /\ rcvd' = [rcvd EXCEPT ![h] = 0] /\ dg' = [dg EXCEPT ![h] = {}]
          ELSE /\ Ev.ok = 0 /\ (IF sk[L].blocking THEN TimeoutRule(sk[L]) /\ (IO => Ev.err = TimedOut) ELSE Ev.err = WouldBlock /\ (LIFE => Ev.npoll = 0))
